@@ -27,9 +27,13 @@ enum Ctl {
     /// (1/2 s: exactly the delay of the delayed timings; 3/2 s: at or past the end of the short ones)
     SeekHalf,
     SeekLate,
+    /// only as the first control of a history: the animator is spawned WITHOUT a timeline (`Animator::new()`), the
+    /// user sets `timeline_position` to 1/2 s and then gives it its timeline with `set_timeline` (documented: no
+    /// reset, the animation continues from the current position)
+    AdoptSeeked,
 }
 const CTLS: [Ctl; 5] = [Ctl::Nothing, Ctl::Disable, Ctl::Enable, Ctl::Reset, Ctl::SetT2];
-const ALL_CTLS: [Ctl; 9] = [Ctl::Nothing, Ctl::Disable, Ctl::Enable, Ctl::Reset, Ctl::SetT2, Ctl::Detach, Ctl::Attach, Ctl::SeekHalf, Ctl::SeekLate];
+const ALL_CTLS: [Ctl; 10] = [Ctl::Nothing, Ctl::Disable, Ctl::Enable, Ctl::Reset, Ctl::SetT2, Ctl::Detach, Ctl::Attach, Ctl::SeekHalf, Ctl::SeekLate, Ctl::AdoptSeeked];
 
 fn timings() -> Vec<Tm> {
     let mut v = vec![];
@@ -251,6 +255,7 @@ fn run_schedule_late(sched: &[f64], ctl_histories: &[Vec<Ctl>], tms: &[Cf], late
                         tls1[ci].set_on(&mut a);
                         a
                     }
+                    Some(Ctl::AdoptSeeked) => Animator::<C>::new(),
                     _ => tls1[ci].animator(),
                 };
                 // histories that start with Detach are spawned without the target component at all
@@ -321,6 +326,15 @@ fn run_schedule_late(sched: &[f64], ctl_histories: &[Vec<Ctl>], tms: &[Cf], late
                         ent.ended_events_in_run = 0;
                         ent.entered_ended_in_run = false;
                     }
+                    Ctl::AdoptSeeked => {
+                        a.timeline_position = Duration::from_millis(500);
+                        tls1[ent.cfg].set_on(&mut a);
+                        // the contract of set_timeline(): it never resets, the position set by the user stands
+                        if a.timeline_position != Duration::from_millis(500) {
+                            let pos = a.timeline_position;
+                            reset_failures.push((ent.e, format!("after timeline_position = 500 ms; set_timeline(..) on an animator without a timeline: position {pos:?}")));
+                        }
+                    }
                     Ctl::Nothing | Ctl::Detach | Ctl::Attach => {}
                 }
             }
@@ -328,7 +342,7 @@ fn run_schedule_late(sched: &[f64], ctl_histories: &[Vec<Ctl>], tms: &[Cf], late
         }
         for (e, msg) in reset_failures {
             let ent = &ents[index_of[&e]];
-            acc.sink.add("R0:reset-does-not-rewind", rank0 | (f as u64) << 24, || (format!("before frame {f}: {msg} | controls {:?} deltas {:?}", ent.ctl, sched), schedule_json(sched, ent, tms)));
+            acc.sink.add(if msg.starts_with("after reset") { "R0:reset-does-not-rewind" } else { "R0:set_timeline-moved-the-clock" }, rank0 | (f as u64) << 24, || (format!("before frame {f}: {msg} | controls {:?} deltas {:?}", ent.ctl, sched), schedule_json(sched, ent, tms)));
         }
         for v in ev_by_ent.iter_mut() {
             v.clear();
@@ -689,6 +703,18 @@ pub fn run(run: Run) -> ! {
             }
         }
     }
+    // an animator that is given its first timeline after the user has already set its position
+    {
+        let mut h = vec![Ctl::Nothing; depth];
+        h[0] = Ctl::AdoptSeeked;
+        sk_ctl.push(h.clone());
+        let mut h2 = h.clone();
+        h2[2] = Ctl::Reset;
+        sk_ctl.push(h2);
+        let mut h3 = h.clone();
+        h3[1] = Ctl::SetT2;
+        sk_ctl.push(h3);
+    }
     let skp = par_fold(
         nsched,
         Acc::default,
@@ -711,7 +737,7 @@ pub fn run(run: Run) -> ! {
     cov.insert("traces_validated_against_impl".into(), json!(acc.apps));
     cov.insert("evaluations".into(), json!(acc.rule_checks));
     cov.insert("distinct_nontrivial".into(), json!(acc.nontrivial));
-    cov.insert("rule".into(), json!(format!("real headless bevy App (AnimationPlugin<C>, hand-driven Time resource, single-threaded executor): ALL {} frame-delta schedules of length {} over {{0, 2^-9, 1/4, 8}} s x ALL {} per-entity control histories over {{nothing, disable, enable, reset, set_timeline(T2)}} (one control before each frame) x 16 timeline configurations (12 plain: delay 0|1/2 x None|Times 1|Infinite x forward|reverse, cycle 1 s; 4 MergedTimelines of two components staggered by delay and/or with different repeat counts - delay = smallest, total = largest component total), one App per schedule hosting every (timing, control history) as its own entity; plus a deviation-bounded pass: default delta 1/4, all schedules of {} frames with <= {} deviations ({} schedules) x control histories with <= 1 control; plus a non-dyadic pass ({} schedules over deltas 0, 50 ms, 100 ms, 8 s x 8 timelines whose totals are not exactly representable - 0.3/0.4/0.7/0.3 s, and four with a delay whose sum with the total rounds (0.3+1, 0.1+2, 0.5+0.4, 0.1+2x1 reversing) x reset histories); plus a late pass ({} Apps: a second copy of every entity is spawned into the running App before frame 1, 2 or 3); plus a clock pass ({} Apps: Time::set_relative_speed(2 | 1/2), Time::pause during the odd frames or during frames 1-2 - the frame's delta is Time::delta()); plus a presence pass ({} Apps: all schedules x ALL histories over {{nothing, detach the target component, attach a fresh one}}; histories starting with detach spawn the animator without the component) - the animator's clock, state and events must not depend on the component being there, R6/R7 apply while it is; plus a seek pass ({} Apps: the documented reset() + timeline_position = 1/2 s | 3/2 s recipe at any one frame, alone, followed by a reset or a disable/enable, or made while disabled and followed by reset() and enable; reset() itself must leave position 0 and state None). Rules per entity-frame: R1 position += delta while Waiting/Playing and frozen when Ended; R2 state never moves backwards; R3 Waiting only while position < delay; R4 Ended iff position >= total (checked at the frame-start position); R5 never Ended when infinite; R6 Ended => component == terminal values; R7 Playing => component == timeline at the frame-start position; R8 disabled => nothing changes, no event; R9 exactly one event per state change carrying the final state, one Ended per run. non-trivial = entity-frames in which the state changed", nsched, depth, ctl_h.len(), horizon, k, dev_apps, nd_apps, late_apps, clock_apps, pr_apps, sk_apps)));
+    cov.insert("rule".into(), json!(format!("real headless bevy App (AnimationPlugin<C>, hand-driven Time resource, single-threaded executor): ALL {} frame-delta schedules of length {} over {{0, 2^-9, 1/4, 8}} s x ALL {} per-entity control histories over {{nothing, disable, enable, reset, set_timeline(T2)}} (one control before each frame) x 16 timeline configurations (12 plain: delay 0|1/2 x None|Times 1|Infinite x forward|reverse, cycle 1 s; 4 MergedTimelines of two components staggered by delay and/or with different repeat counts - delay = smallest, total = largest component total), one App per schedule hosting every (timing, control history) as its own entity; plus a deviation-bounded pass: default delta 1/4, all schedules of {} frames with <= {} deviations ({} schedules) x control histories with <= 1 control; plus a non-dyadic pass ({} schedules over deltas 0, 50 ms, 100 ms, 8 s x 8 timelines whose totals are not exactly representable - 0.3/0.4/0.7/0.3 s, and four with a delay whose sum with the total rounds (0.3+1, 0.1+2, 0.5+0.4, 0.1+2x1 reversing) x reset histories); plus a late pass ({} Apps: a second copy of every entity is spawned into the running App before frame 1, 2 or 3); plus a clock pass ({} Apps: Time::set_relative_speed(2 | 1/2), Time::pause during the odd frames or during frames 1-2 - the frame's delta is Time::delta()); plus a presence pass ({} Apps: all schedules x ALL histories over {{nothing, detach the target component, attach a fresh one}}; histories starting with detach spawn the animator without the component) - the animator's clock, state and events must not depend on the component being there, R6/R7 apply while it is; plus a seek pass ({} Apps: the documented reset() + timeline_position = 1/2 s | 3/2 s recipe at any one frame, alone, followed by a reset or a disable/enable, or made while disabled and followed by reset() and enable; reset() itself must leave position 0 and state None; an animator spawned without a timeline whose position is set before its first set_timeline continues from that position). Rules per entity-frame: R1 position += delta while Waiting/Playing and frozen when Ended; R2 state never moves backwards; R3 Waiting only while position < delay; R4 Ended iff position >= total (checked at the frame-start position); R5 never Ended when infinite; R6 Ended => component == terminal values; R7 Playing => component == timeline at the frame-start position; R8 disabled => nothing changes, no event; R9 exactly one event per state change carrying the final state, one Ended per run. non-trivial = entity-frames in which the state changed", nsched, depth, ctl_h.len(), horizon, k, dev_apps, nd_apps, late_apps, clock_apps, pr_apps, sk_apps)));
     cov.insert("exhaustive".into(), json!(true));
     cov.insert("apps".into(), json!(acc.apps));
     cov.insert("events_observed".into(), json!(acc.events));
